@@ -129,7 +129,8 @@ Section SA.
     /\ (forall f, In f (sa_fps s) <-> exists r, In r rules /\ f = fp_of r)
     /\ (forall r, In r rules -> NoDup (r_signers r) /\ NoDup (r_policies r))
     /\ (forall r1 r2, In r1 rules -> In r2 rules -> fp_same (fp_of r1) (fp_of r2) = true -> r1 = r2)
-    /\ (forall r, In r rules -> sa_validate c (r_signers r) (r_policies r) = true).
+    /\ (forall r, In r rules -> sa_validate c (r_signers r) (r_policies r) = true)
+    /\ rAdds a = rBound a.
 
   Lemma sa_rel_init : sa_rel sa_init sa_ref0.
   Proof.
@@ -232,7 +233,7 @@ Section SA.
                  (match sa_add_rule c s cx name until sg po with Ok r => Ok (Some (snd r)) | Fail => Fail end) = Some a'
       /\ sa_rel (match sa_add_rule c s cx name until sg po with Ok r => fst r | Fail => s end) a'.
   Proof.
-    intros HR. pose proof HR as (HM & HS & HP & HI & HC & HN & HU & HB & HF & HW & HD & HV).
+    intros HR. pose proof HR as (HM & HS & HP & HI & HC & HN & HU & HB & HF & HW & HD & HV & HA).
     unfold sa_add_rule. cbn [sa_spec]. rewrite (count0_rel HR), HN.
     set (pol := map fst po).
     assert (Hrefused : forall b : bool, b = true ->
@@ -256,7 +257,7 @@ Section SA.
     cbn [bind]. destruct (forallb snd po) eqn:E7; cbn [negb].
     2:{ cbn [bind]. cbv beta iota. apply Hrefused. reflexivity. }
     destruct (in_u32 (Z.of_N (rBound a) + 1)) eqn:E8; cbn [negb orb].
-    2:{ cbn [bind]. cbv beta iota. apply Hrefused. apply N.leb_le.
+    2:{ cbn [bind]. cbv beta iota. apply Hrefused. apply N.leb_le. rewrite HA.
         unfold in_u32 in E8. rewrite maxu32_val in E8. apply andb_false_iff in E8.
         destruct E8 as [E8|E8]; [apply Z.leb_gt in E8|apply Z.leb_gt in E8]; lia. }
     cbn [fst snd r_id]. rewrite N.leb_refl. cbn [negb andb].
@@ -266,7 +267,7 @@ Section SA.
     assert (Hfresh : find_rule (rBound a) (rRules a) = None).
     { apply find_rule_none. intros Hin. apply in_map_iff in Hin. destruct Hin as [r [E Hr]]. apply HB in Hr. lia. }
     unfold sa_rel. cbn [rRules rBound sa_meta sa_signers sa_policies sa_ids sa_fps sa_count sa_next].
-    split; [|split; [|split; [|split; [|split; [|split; [|split; [|split; [|split; [|split; [|split]]]]]]]]]].
+    split; [|split; [|split; [|split; [|split; [|split; [|split; [|split; [|split; [|split; [|split; [|split]]]]]]]]]]].
     - intros id. rewrite (aget_aset N.eqb N.eqb_eq), find_rule_snoc, HM. cbn [r_id want].
       destruct (N.eqb_spec id (rBound a)) as [->|E].
       + rewrite Hfresh, N.eqb_refl. reflexivity.
@@ -308,6 +309,7 @@ Section SA.
       + rewrite fp_same_sym, (Hnew r1 H1) in Hs. discriminate.
       + rewrite (Hnew r2 H2) in Hs. discriminate.
     - intros r Hr. apply in_app_or in Hr. destruct Hr as [Hr|[<-|[]]]; [apply HV; auto|exact E4].
+    - rewrite HA. reflexivity.
   Qed.
 
   (* ================= replacing one rule by another with the same id and context type ================= *)
@@ -327,15 +329,15 @@ Section SA.
     (forall i, aget N.eqb i (sa_signers s') = if N.eqb i id then Some (r_signers r') else aget N.eqb i (sa_signers s)) ->
     (forall i, aget N.eqb i (sa_policies s') = if N.eqb i id then Some (r_policies r') else aget N.eqb i (sa_policies s)) ->
     (forall f, In f (sa_fps s') <-> (f = fp_of r' \/ (In f (sa_fps s) /\ fp_same (fp_of r) f = false))) ->
-    sa_rel s' {| rRules := put_rule r' (rRules a); rBound := rBound a |}.
+    sa_rel s' {| rRules := put_rule r' (rRules a); rBound := rBound a; rAdds := rAdds a |}.
   Proof.
     intros HR Hf Hid Hcx Hns Hnp Hval Hother En Ec Ei Em Es Ep Efp.
-    pose proof HR as (HM & HS & HP & HI & HC & HN & HU & HB & HF & HW & HD & HV).
+    pose proof HR as (HM & HS & HP & HI & HC & HN & HU & HB & HF & HW & HD & HV & HA).
     destruct (find_rule_id _ _ Hf) as [Hrid Hrin].
     assert (Hfind : forall i, find_rule i (put_rule r' (rRules a)) = if N.eqb i id then Some r' else find_rule i (rRules a)).
     { intros i. rewrite find_rule_put, Hid. destruct (N.eqb_spec i id) as [->|E]; auto. rewrite Hf. reflexivity. }
     unfold sa_rel. cbn [rRules rBound].
-    split; [|split; [|split; [|split; [|split; [|split; [|split; [|split; [|split; [|split; [|split]]]]]]]]]].
+    split; [|split; [|split; [|split; [|split; [|split; [|split; [|split; [|split; [|split; [|split; [|split]]]]]]]]]]].
     - intros i. rewrite Em, Hfind, HM. destruct (N.eqb i id); reflexivity.
     - intros i. rewrite Es, Hfind, HS. destruct (N.eqb i id); reflexivity.
     - intros i. rewrite Ep, Hfind, HP. destruct (N.eqb i id); reflexivity.
@@ -361,6 +363,7 @@ Section SA.
       + rewrite Hother in Hs; [discriminate|auto|]. intros ->. apply N2. congruence.
       + rewrite fp_same_sym, Hother in Hs; [discriminate|auto|]. intros ->. apply N1. congruence.
     - intros x Hx. apply in_put in Hx. destruct Hx as [[-> _]|[Hx _]]; [exact Hval|apply HV; auto].
+    - exact HA.
   Qed.
 
   (* ---- name / valid_until ---- *)
@@ -369,9 +372,9 @@ Section SA.
     sa_rel (sa_with_meta s id (name, r_ctx r, until))
            {| rRules := put_rule {| r_id := id; r_ctx := r_ctx r; r_name := name; r_signers := r_signers r;
                                     r_policies := r_policies r; r_until := until |} (rRules a);
-              rBound := rBound a |}.
+              rBound := rBound a; rAdds := rAdds a |}.
   Proof.
-    intros HR Hf. pose proof HR as (HM & HS & HP & HI & HC & HN & HU & HB & HF & HW & HD & HV).
+    intros HR Hf. pose proof HR as (HM & HS & HP & HI & HC & HN & HU & HB & HF & HW & HD & HV & HA).
     destruct (find_rule_id _ _ Hf) as [Hrid Hrin]. destruct (HW r Hrin) as [W1 W2].
     apply (@rel_replace s a id r); auto; cbn [r_id r_ctx r_signers r_policies sa_with_meta sa_next sa_count sa_ids sa_meta sa_signers sa_policies sa_fps].
     - apply HV. auto.
@@ -439,7 +442,7 @@ Section SA.
     (forall i, aget N.eqb i (sa_signers s') = if N.eqb i id then Some sg else aget N.eqb i (sa_signers s)) ->
     (forall i, aget N.eqb i (sa_policies s') = if N.eqb i id then Some po else aget N.eqb i (sa_policies s)) ->
     sa_fps s' = filter (fun g => negb (fp_same (fp_of r) g)) ((r_ctx r, sg, po) :: sa_fps s) ->
-    sa_rel s' {| rRules := put_rule (with_sp r sg po) (rRules a); rBound := rBound a |}.
+    sa_rel s' {| rRules := put_rule (with_sp r sg po) (rRules a); rBound := rBound a; rAdds := rAdds a |}.
   Proof.
     intros HR Hf Hs Hp Hval Hex En Ec Ei Em Es Ep Efp.
     pose proof HR as (HM & _). destruct (find_rule_id _ _ Hf) as [Hrid Hrin].
@@ -552,7 +555,7 @@ Section SA.
   Proof.
     intros HR. unfold sa_remove_rule. cbn [sa_spec]. rewrite (sa_get_rule_rel id HR).
     destruct (find_rule id (rRules a)) as [r|] eqn:Ef; cbn [of_option bind]; [|exists a; auto].
-    pose proof HR as (HM & HS & HP & HI & HC & HN & HU & HB & HF & HW & HD & HV).
+    pose proof HR as (HM & HS & HP & HI & HC & HN & HU & HB & HF & HW & HD & HV & HA).
     destruct (find_rule_id _ _ Ef) as [Hrid Hin]. destruct (HW r Hin) as [W1 W2].
     unfold sa_del_fp, sa_fp.
     rewrite (proj2 (nodupb_NoDup signer_eqb signer_eqb_spec _) W1), (proj2 (nodupb_NoDup N.eqb N.eqb_eq _) W2).
@@ -563,7 +566,7 @@ Section SA.
     rewrite HC. destruct (length (rRules a)) as [|n] eqn:El; [discriminate|].
     eexists. split; [reflexivity|].
     unfold sa_rel. cbn [rRules rBound sa_meta sa_signers sa_policies sa_ids sa_fps sa_count sa_next].
-    split; [|split; [|split; [|split; [|split; [|split; [|split; [|split; [|split; [|split; [|split]]]]]]]]]].
+    split; [|split; [|split; [|split; [|split; [|split; [|split; [|split; [|split; [|split; [|split; [|split]]]]]]]]]]].
     - intros i. rewrite (aget_adel N.eqb N.eqb_eq), find_rule_drop, HM. destruct (N.eqb i id); reflexivity.
     - intros i. rewrite (aget_adel N.eqb N.eqb_eq), find_rule_drop, HS. destruct (N.eqb i id); reflexivity.
     - intros i. rewrite (aget_adel N.eqb N.eqb_eq), find_rule_drop, HP. destruct (N.eqb i id); reflexivity.
@@ -593,6 +596,7 @@ Section SA.
     - intros x Hx. apply in_drop in Hx. apply HW. tauto.
     - intros r1 r2 H1 H2. apply in_drop in H1. apply in_drop in H2. apply HD; tauto.
     - intros x Hx. apply in_drop in Hx. apply HV. tauto.
+    - exact HA.
   Qed.
 
   (* ================= every call ================= *)
@@ -632,7 +636,7 @@ Section SA.
 
   Lemma sa_chk_ok s a q : sa_rel s a -> sa_chk a (q, sa_answer s q) = true.
   Proof.
-    intros HR. pose proof HR as (HM & HS & HP & HI & HC & HN & HU & HB & HF & HW & HD & HV).
+    intros HR. pose proof HR as (HM & HS & HP & HI & HC & HN & HU & HB & HF & HW & HD & HV & HA).
     destruct q as [id|cx|]; cbn [sa_answer sa_chk].
     - rewrite (sa_get_rule_rel id HR). destruct (find_rule id (rRules a)) as [r|] eqn:Ef; cbn [of_option]; auto.
       destruct (find_rule_id _ _ Ef) as [_ Hin]. destruct (HW r Hin). apply rule_sim_refl; auto.
